@@ -2,6 +2,7 @@ import MirProofs.Lemmas.BeatReal
 import MirProofs.Lemmas.BeatSelf
 import MirProofs.Lemmas.BeatContSelf
 import MirProofs.Lemmas.BeatPScore
+import MirProofs.Lemmas.BeatDefCont
 /-!
   C02 (beat) — a perfect estimate receives the perfect score.
 -/
@@ -61,6 +62,15 @@ theorem continuity_self (x : List Rat) (p q : Rat) (hx : x.Pairwise (· < ·)) (
   obtain ⟨rfl, rfl⟩ := hct
   obtain ⟨_, _, _, h3, h4, h5, h6⟩ := hok
   refine ⟨rfl, rfl, ?_, ?_⟩ <;> linarith
+
+/-- The same without the proviso: continuity of a strictly increasing sequence of ≥ 2 beats against itself RETURNS, and
+    returns (1, 1, 1, 1) (totality of the loop over the metrical variations: Lemmas/BeatTotal.lean); with validation,
+    the public function does. -/
+theorem continuity_self_total (x : List Rat) (p q : Rat) (hx : x.Pairwise (· < ·)) (hlen : 2 ≤ x.length)
+    (hp : 0 < p) (hq : 0 < q) :
+    continuityCore x x p q = .ok (1, 1, 1, 1) ∧
+    (validate x x = .ok () → Mir.Beat.continuity x x p q = .ok (1, 1, 1, 1)) :=
+  ⟨continuityCore_self_total x p q hx hlen hp hq, Mir.Beat.continuity_self_total x p q hx hlen hp hq⟩
 
 /-- P-score of a sequence against itself is 1 when its quantised beats are further apart than the correlation
     window `win` (and no two beats fall on the same 10 ms sample), for `0 ≤ win < N` (`N` = train length; a
